@@ -372,6 +372,7 @@ struct Refs {
   uint64_t total_events = 0;
   uint64_t guard_inits = 0;
   uint64_t races = 0;
+  uint64_t lock_events = 0;  // mutex / rwlock / condvar / once events seen in the solo runs
 };
 
 struct ChildStatus {
@@ -443,6 +444,7 @@ static void compute_refs(const Plan& pl, Refs& refs) {
     refs.task_events[t] = g_shm->res.events;
     refs.total_events += g_shm->res.events;
     refs.guard_inits += g_shm->res.guard_init_in_sim;
+    refs.lock_events += g_shm->res.ev_by_kind[sim::EV_MUTEX] + g_shm->res.ev_by_kind[sim::EV_ONCE];
     refs.races += g_shm->res.races_total;
   }
 }
@@ -521,7 +523,25 @@ static RunOutcome execute_run(const Plan& pl, const Refs& refs) {
     ro.cls |= C_MACHINERY;
     d += std::string("\"unsupported\":\"") + res.unsupported_what + "\",";
   }
-  if (res.deadlock) ro.cls |= C_DEADLOCK;
+  if (res.deadlock || res.budget_exhausted) {
+    if (res.deadlock) ro.cls |= C_DEADLOCK;
+    d += "\"stuck\":[";
+    static const char* sn[] = {"new", "runnable", "blocked", "stalled", "done"};
+    for (size_t t = 0; t < pl.tasks.size(); ++t) {
+      std::string opn = "-";
+      int co = res.end_op[t];
+      if (co >= 0 && co < (int)pl.tasks[t].size()) {
+        const PlanOp& po = pl.tasks[t][co];
+        const OpDef* df = h::find_def(po.name.c_str());
+        opn = po.name + ":" + (df ? df->fn_names[po.p[0]] : "?");
+      }
+      snprintf(b, sizeof b, "%s{\"task\":%zu,\"state\":\"%s\",\"op\":\"%s\",\"blocked_on\":%" PRIu64 ",\"pc\":%u}", t ? "," : "", t,
+               sn[res.end_state[t] >= 0 && res.end_state[t] < 5 ? res.end_state[t] : 0], opn.c_str(), (uint64_t)res.end_blocked_on[t],
+               res.end_blocked_pc[t]);
+      d += b;
+    }
+    d += "],";
+  }
   if (res.budget_exhausted) {
     if (res.fair_mode_entered) ro.cls |= C_PROGRESS;
     else ro.cls |= C_BUDGET;
@@ -678,6 +698,7 @@ static void gen_workload(uint64_t seed, uint64_t widx, const GenOpts& go, Plan& 
         op = focus[(size_t)r.below(nfocus)];
         const OpDef* d = h::find_def(op.name.c_str());
         if (r.coin(0.25)) op.p[2] = r.below(d->nobj);
+        if (r.coin(0.2)) { int64_t tmp = op.p[1]; op.p[1] = op.p[2]; op.p[2] = tmp; }  // same call, operands swapped
         if (r.coin(0.15)) op.p[0] = r.below(d->nfn);
         if (r.coin(0.5)) op.salt = r.u64();
         if (d->has_callback) op.throw_at = r.coin(0.15) ? (int)r.below(6) : -1;
@@ -707,7 +728,12 @@ static void gen_sched(uint64_t seed, uint64_t widx, uint64_t sidx, const Plan& p
   double u = r.unit();
   static const double walk_p[] = {1e-4, 1e-3, 0.01, 0.05, 0.2, 0.5};
   static const int pct_d[] = {1, 2, 3, 5};
-  if (u < 0.35) {
+  if (refs.lock_events > 0 && r.coin(0.5)) {
+    // the code under test takes locks: concentrate the switches on synchronisation events, where
+    // lock-order and check-then-act problems live
+    sc.strategy = sim::S_SYNC;
+    sc.p = r.coin(0.5) ? 0.5 : 0.25;
+  } else if (u < 0.35) {
     sc.strategy = sim::S_WALK;
     sc.p = walk_p[r.below(6)];
   } else if (u < 0.60) {
